@@ -226,10 +226,13 @@ pub fn parse_pnm(input: impl IntoIterator<Item = u8>) -> Result<Buf2<Color3>> {
                 .take(count)
                 .collect()
         }
+        // Like the other formats, read no further than the raster extends
         BinaryGraymap => it //
+            .take(count)
             .map(|c| rgb(c, c, c))
             .collect(),
         BinaryBitmap => it
+            .take(count.div_ceil(8))
             .flat_map(|byte| (0..8).rev().map(move |i| (byte >> i) & 1))
             .map(|bit| {
                 // Conventionally in PBM 0 is white, 1 is black
